@@ -571,22 +571,22 @@ class SeqModel:
 COMPONENTS = ('grid_pts', 'p0', 'ns', 'data', 'multinom', 'log', 'eps')
 
 
-def seq_setup(rng):
-    """a model object and two values for every argument of a call"""
+def seq_setup(rng, k=2):
+    """a model object (k parameters) and two values for every argument of a call"""
     n1 = rng.randint(6, 9)
     n2 = n1 + rng.choice([1, 2])
     g1, g2 = rng.choice([([10], [12]), ([10, 12, 14], [12, 14, 16]), ([12], [12, 14])])
     g1, g2 = tuple(g1), tuple(g2)
-    table = {(n, g): LinModel(rng, n, 2, fixed=True, scale=16) for n in (n1, n2) for g in (g1, g2)}
-    ps = [[short(rng, 0.75, 2.5, 8), short(rng, 0.75, 2.5, 8)] for _ in range(2)]
+    table = {(n, g): LinModel(rng, n, k, fixed=True, scale=16) for n in (n1, n2) for g in (g1, g2)}
+    ps = [[short(rng, 0.75, 2.5, 8) for _ in range(k)] for _ in range(2)]
     while ps[1] == ps[0]:
-        ps[1] = [short(rng, 0.75, 2.5, 8), short(rng, 0.75, 2.5, 8)]
+        ps[1] = [short(rng, 0.75, 2.5, 8) for _ in range(k)]
     eps = rng.sample([2.0 ** -7, 2.0 ** -6, 3 * 2.0 ** -8], 2)
     data, boots = {}, {}
     for n in (n1, n2):
         mean = sum(np.asarray(table[(n, g)](p, [n], list(g)).data) for g in (g1, g2) for p in ps) / 4.0
         data[n] = [poisson_like(rng, mean), poisson_like(rng, mean)]
-        boots[n] = [poisson_like(rng, mean) for _ in range(8)]      # (k + theta = 3 parameters: J needs clearly more bootstraps)
+        boots[n] = [poisson_like(rng, mean) for _ in range(6)]
     return {'func': SeqModel(table), 'n': (n1, n2), 'g': (g1, g2), 'p': ps, 'eps': eps, 'data': data, 'boots': boots}
 
 
@@ -1064,7 +1064,8 @@ def records(ctx):
     tie_cases = named_cases(r1, TIE_CONFIGS, ncand)
     mask_cases = named_cases(r3, MASK_CONFIGS, ncand)
     words = seq_words(r2, ctx.quick)
-    seq_sus = [seq_setup(r2) for _ in range(3 if ctx.quick else 5)]
+    # (with the theta augmentation the first-order bounds rarely decide GIM for two parameters: one-parameter setups follow)
+    seq_sus = [seq_setup(r2, k) for k in ((2, 1, 1) if ctx.quick else (2, 1, 2, 1, 1))]
     seq_sc = [seq_screen_cases(su, words) for su in seq_sus]
     groups = [det + rnd, flat, tie_cases, mask_cases] + seq_sc
     ok = screen([c for g in groups for c in g])        # one TLC pass decides which closed-form comparisons are decidable
